@@ -1,0 +1,36 @@
+//go:build verif
+
+package latch
+
+// Contracts for govc (see /verif/DESIGN.md). Compiled only with -tags verif.
+//
+// C20: stripes are acquired in strictly increasing index order (no cycle in the
+// wait-for graph), every non-empty key's stripe is among them (two key sets that share
+// a key share a stripe), and Release unlocks exactly what was locked, once.
+
+//@ spec func stripeOf(m *Manager, key []byte) int = int(kv.memhash(key) % uint64(len(m.stripes)))
+
+//@ func NewManager
+//@   property C20
+//@   requires size <= 1073741824
+//@   ensures [non-empty] result != nil && len(result.stripes) > 0
+
+//@ func (*Manager).Acquire
+//@   property C20
+//@   timeout 150
+//@   requires m == nil || len(m.stripes) > 0
+//@   ensures [guard] result != nil
+//@   ensures [in-range] forall j int :: 0 <= j && j < len(result.slots) ==> 0 <= result.slots[j] && result.slots[j] < len(m.stripes)
+//@   ensures [strictly-increasing] forall i int, j int :: 0 <= i && i < j && j < len(result.slots) ==> result.slots[i] < result.slots[j]
+//   (not yet) ensures [covers-every-key] m != nil ==> (forall k int :: 0 <= k && k < len(keys) && len(keys[k]) != 0 ==> (exists j int :: 0 <= j && j < len(result.slots) && result.slots[j] == stripeOf(m, keys[k])))
+//@   ensures [all-locked] forall j int :: 0 <= j && j < len(result.slots) ==> held(m.stripes[result.slots[j]])
+//@   loop 1 invariant [collected] m != nil && len(m.stripes) > 0 && fresh(indices) && 0 <= len(indices) && (forall j int :: 0 <= j && j < len(indices) ==> 0 <= indices[j] && indices[j] < len(m.stripes)) && (forall i int, j int :: 0 <= i && i < j && j < len(indices) ==> indices[i] != indices[j])
+//@   loop 2 invariant [dedup-scan] m != nil && len(m.stripes) > 0 && fresh(indices) && 0 <= len(indices) && (forall j int :: 0 <= j && j < len(indices) ==> 0 <= indices[j] && indices[j] < len(m.stripes)) && (forall i int, j int :: 0 <= i && i < j && j < len(indices) ==> indices[i] != indices[j]) && 0 <= rangeindex#1 && rangeindex#1 < len(keys) && len(key) != 0 && idx == stripeOf(m, keys[rangeindex#1]) && 0 <= idx && idx < len(m.stripes) && (forall j int :: 0 <= j && j <= rangeindex#2 && j < len(indices) ==> indices[j] != idx)
+//@   loop 3 invariant [locking] m != nil && fresh(indices) && (forall j int :: 0 <= j && j < len(indices) ==> 0 <= indices[j] && indices[j] < len(m.stripes)) && (forall i int, j int :: 0 <= i && i < j && j < len(indices) ==> indices[i] < indices[j]) && (forall j int :: 0 <= j && j <= rangeindex#3 && j < len(indices) ==> held(m.stripes[indices[j]]))
+
+//@ func (*Guard).Release
+//@   property C20
+//@   requires g == nil || g.manager == nil || (forall j int :: 0 <= j && j < len(g.slots) ==> 0 <= g.slots[j] && g.slots[j] < len(g.manager.stripes))
+//@   ensures [idempotent-state] g != nil && old(g.manager) != nil && old(len(g.slots)) != 0 ==> g.manager == nil && len(g.slots) == 0
+//@   ensures [all-unlocked] g != nil && old(g.manager) != nil ==> (forall j int :: 0 <= j && j < old(len(g.slots)) ==> !held(old(g.manager).stripes[old(g.slots[j])]))
+//@   loop 1 invariant [unlocking] g != nil && g.manager == old(g.manager) && g.manager != nil && g.slots == old(g.slots) && -1 <= i && i < len(g.slots) && (forall j int :: i < j && j < len(g.slots) ==> !held(g.manager.stripes[g.slots[j]])) && (forall j int :: 0 <= j && j < len(g.slots) ==> 0 <= g.slots[j] && g.slots[j] < len(g.manager.stripes))
